@@ -236,7 +236,7 @@ def run(ctx):
         ctx.merge(a)
         jobs += [(h, pr, rem, seed, 5, p) for pr, rem in js]
     from .. import docspace as D
-    ctx.pmap(_huge_job, [(h, s, sd, p) for (h, s, sd), p in zip(D.huge_docs(seed + 7) + D.giant_jobs(seed), ((), PRE, PRE, ()))], chunksize=1)
+    ctx.pmap(_huge_job, [(h, s, sd, p) for (h, s, sd), p in zip(D.huge_docs(seed + 7) + D.giant_jobs(seed) + D.aligned_jobs(seed), ((), PRE, PRE, (), (), (), ()))], chunksize=1)
     ctx.pmap(_job, jobs, chunksize=1)
     cd = 2 if quick else 3
     nseq = sum(len(CLINES) ** n for n in range(cd + 1))
